@@ -103,7 +103,11 @@ def gen_config(r, n, pool, w, clean=False):
     if r.random() < 0.3:
         ds = []
         for _ in range(r.choice([1, 1, 2, 3])):
-            ds.append({"source": r.choice([0, n - 1, n, r.randrange(n)]) if not clean else 0, "offset": r.choice([0, n, n + 1, n + 2, r.randrange(n + 1)]) if not clean else r.choice([0, 0, 1]), "length": r.choice([0, 1, 1, 2, 3])})
+            ds.append({"source": r.choice([0, n - 1, n, r.randrange(n)]) if not clean else r.randrange(n), "offset": r.choice([0, n, n + 1, n + 2, r.randrange(n + 1)]) if not clean else r.choice([0, 0, 1, r.randrange(n + 1)]), "length": r.choice([0, 1, 1, 2, 3])})
+        if len(ds) > 1 and r.random() < 0.4:
+            # several entries inserted at one offset (from different sources): their relative order is the config's
+            for d in ds[1:]:
+                d["offset"] = ds[0]["offset"]
         cfg["duplicate"] = ds
         mp.append("dups@" + ",".join("%d:%d:%d" % (d["source"], d["offset"], d["length"]) for d in ds))
     if r.random() < 0.45:
@@ -243,7 +247,7 @@ def run(res):
     res.coverage.update({
         "evaluations": nrun * 2,
         "distinct_nontrivial": ncase,
-        "rule": "RPU lists of 1..15 frames drawn from generated valid RPUs (mixed profiles, with/without CM v4.0, with/without L5, MMR/polynomial/NLQ) and the repository's sample RPUs x editor configs generated field by field: mode 0..6/255, remove_cmv4, remove_mapping, min/max PQ, active_area {crop, drop_l5, presets with duplicate / unknown ids, edits with `all` and range keys}, remove (ranges, indices, junk), duplicate (source/offset at and past the bounds, several entries, length 0..3), scene_cuts (all / ranges, overlapping), level6/9/11/255, source_rpu of equal / different length / missing file with and without rpu_levels; range keys at every shape: start=end, end=N-1, end=N, start>end, far past the end, half-empty, non-numeric, `+`-prefixed, three-part; exit status and output bytes compared with the Coq editor model; length accounting and byte-identity of frames outside every range checked directly",
+        "rule": "RPU lists of 1..15 frames drawn from generated valid RPUs (mixed profiles, with/without CM v4.0, with/without L5, MMR/polynomial/NLQ) and the repository's sample RPUs x editor configs generated field by field: mode 0..6/255, remove_cmv4, remove_mapping, min/max PQ, active_area {crop, drop_l5, presets with duplicate / unknown ids, edits with `all` and range keys}, remove (ranges, indices, junk), duplicate (source/offset at and past the bounds, several entries incl. entries sharing one offset with different sources, length 0..3), scene_cuts (all / ranges, overlapping), level6/9/11/255, source_rpu of equal / different length / missing file with and without rpu_levels; range keys at every shape: start=end, end=N-1, end=N, start>end, far past the end, half-empty, non-numeric, `+`-prefixed, three-part; exit status and output bytes compared with the Coq editor model; length accounting and byte-identity of frames outside every range checked directly",
         "cli_runs": nrun, "outcomes": stats,
     })
     res.assumptions += ["JSON deserialisation of the config (serde) is not modelled: the model receives the typed configuration the generator built",
